@@ -117,7 +117,7 @@ class _GaussianGammaPair(_ConjugatePair):
     def sample(self):
         # Extract variables
         b = self.target.likelihood.data                                 # mu
-        m = len(b)                                                      # n
+        m = getattr(self.target.likelihood.distribution, '_rank', len(b)) # n (rank of the precision for GMRFs)
         Ax = self.target.likelihood.distribution.mean                   # x_i
         L = self.target.likelihood.distribution(np.array([1])).sqrtprec # L
         alpha = self.target.prior.shape                                 # alpha
